@@ -71,12 +71,25 @@ impl<'tcx> Cx<'tcx> {
                             };
                             let fields: Vec<String> =
                                 v.fields.iter().map(|f| js(f.name.as_str())).collect();
+                            let ftys: Vec<String> = v
+                                .fields
+                                .iter()
+                                .map(|f| {
+                                    js(&self
+                                        .tcx
+                                        .type_of(f.did)
+                                        .instantiate_identity()
+                                        .skip_norm_wip()
+                                        .to_string())
+                                })
+                                .collect();
                             let _ = write!(
                                 s,
-                                "{{\"name\":{},\"discr\":{},\"fields\":[{}]}}",
+                                "{{\"name\":{},\"discr\":{},\"fields\":[{}],\"ftys\":[{}]}}",
                                 js(v.name.as_str()),
                                 js(&discr),
-                                fields.join(",")
+                                fields.join(","),
+                                ftys.join(",")
                             );
                         }
                         s.push(']');
@@ -595,21 +608,34 @@ impl<'tcx> intravisit::Visitor<'tcx> for UnsafeV<'tcx> {
 // ---------------------------------------------------------------------------------------------
 // instance-resolved call graph
 
-struct Graph {
+struct Graph<'tcx> {
     nodes: Vec<String>,
-    index: HashMap<String, usize>,
+    index: HashMap<Instance<'tcx>, usize>,
+    sindex: HashMap<String, usize>,
     edges: Vec<(usize, usize, usize, u8)>, // from, to, line, kind (0 call, 1 passes fn/closure, 2 unresolved)
     leaves: HashSet<usize>,
 }
 
-impl Graph {
+impl<'tcx> Graph<'tcx> {
+    // nodes are keyed by instance identity: the printed form of a closure type omits its parent's
+    // generic arguments, so two different instances can print alike
+    fn inode(&mut self, tcx: TyCtxt<'tcx>, inst: Instance<'tcx>) -> usize {
+        if let Some(i) = self.index.get(&inst) {
+            return *i;
+        }
+        let i = self.nodes.len();
+        self.nodes.push(inst_key(tcx, inst));
+        self.index.insert(inst, i);
+        i
+    }
+
     fn node(&mut self, key: String) -> usize {
-        if let Some(i) = self.index.get(&key) {
+        if let Some(i) = self.sindex.get(&key) {
             return *i;
         }
         let i = self.nodes.len();
         self.nodes.push(key.clone());
-        self.index.insert(key, i);
+        self.sindex.insert(key, i);
         i
     }
 }
@@ -636,18 +662,18 @@ fn inst_key<'tcx>(tcx: TyCtxt<'tcx>, inst: Instance<'tcx>) -> String {
 fn walk_instances<'tcx>(
     tcx: TyCtxt<'tcx>,
     root_did: DefId,
-    g: &mut Graph,
+    g: &mut Graph<'tcx>,
 ) -> (usize, Vec<usize>) {
     let env = TypingEnv::post_analysis(tcx, root_did);
     let root = Instance::new_raw(root_did, GenericArgs::identity_for_item(tcx, root_did));
-    let rid = g.node(inst_key(tcx, root));
+    let rid = g.inode(tcx, root);
     let mut reached = vec![rid];
     let mut seen: HashSet<Instance<'tcx>> = HashSet::new();
     let mut work: VecDeque<Instance<'tcx>> = VecDeque::new();
     seen.insert(root);
     work.push_back(root);
     while let Some(inst) = work.pop_front() {
-        let from = g.node(inst_key(tcx, inst));
+        let from = g.inode(tcx, inst);
         match inst.def {
             InstanceKind::Intrinsic(_) | InstanceKind::Virtual(..) => {
                 g.leaves.insert(from);
@@ -663,14 +689,14 @@ fn walk_instances<'tcx>(
         }
         let body = tcx.instance_mir(inst.def);
         let sm = tcx.sess.source_map();
-        let push = |g: &mut Graph,
+        let push = |g: &mut Graph<'tcx>,
                         work: &mut VecDeque<Instance<'tcx>>,
                         seen: &mut HashSet<Instance<'tcx>>,
                         reached: &mut Vec<usize>,
                         callee: Instance<'tcx>,
                         line: usize,
                         kind: u8| {
-            let to = g.node(inst_key(tcx, callee));
+            let to = g.inode(tcx, callee);
             g.edges.push((from, to, line, kind));
             if seen.insert(callee) {
                 reached.push(to);
@@ -869,6 +895,7 @@ impl rustc_driver::Callbacks for Cb {
         let mut g = Graph {
             nodes: Vec::new(),
             index: HashMap::new(),
+            sindex: HashMap::new(),
             edges: Vec::new(),
             leaves: HashSet::new(),
         };
